@@ -92,13 +92,15 @@ def record_fields(prog: Program, module: str, cls: str) -> list[str]:
     return out
 
 
-def prepared(prog: Program, fn: FuncInfo) -> FuncNode:
-    """Copy of the function with its simple private helpers (methods, module functions, closures) spliced in."""
+def prepared(prog: Program, fn: FuncInfo, fold_lists: bool = True) -> FuncNode:
+    """Copy of the function with its simple private helpers (methods, module functions, closures) spliced in.
+    `fold_lists=False` leaves lists filled in a loop to the caller (loop_sums reads them with helpers followed)."""
     node = inline_straightline(prog, fn, inline_helpers(prog, fn))
     if hoist_block_helpers(prog, fn, node):
         node = inline_straightline(prog, fn, inline_helpers(prog, fn, node=node))
     dewalrus_comprehensions(node)
-    fold_list_loops(node)
+    if fold_lists:
+        fold_list_loops(node)
     fold_sum_loops(node)
     return node
 
@@ -659,11 +661,45 @@ def loop_sums(fn: FuncNode, loop: ast.For, follow: Any = None) -> dict[str, tupl
     re-binds to `itself + inc` with one and the same `inc`; the passes that leave it alone (a
     `continue`, an untaken `if`) are exactly those excluded by the returned guards, which the caller
     must judge (an unguarded sum has none)."""
-    lp = loop_passes(fn, loop, follow=follow)
+    filled = tuple(sorted({n.func.value.id for n in ast.walk(loop) if isinstance(n, ast.Call) and isinstance(n.func, ast.Attribute)  # type: ignore[attr-defined]
+                           and n.func.attr == "append" and isinstance(n.func.value, ast.Name)}))
+    lp = loop_passes(fn, loop, symbolic=filled, follow=follow)
     if lp is None:
         return {}
     it, env, _full, passes = lp
     out: dict[str, tuple[ast.AST, list[Guard]]] = {}
+    # lists filled by the loop: bound to an empty list before it, touched by at most one `.append(X)` per pass, with
+    # one and the same X -- read as `[X for T in IT]` under the guards of the appending passes (sum(list) == Σ X)
+    def _appends(c: ast.Call, a: str) -> bool:
+        return isinstance(c.func, ast.Attribute) and c.func.attr == "append" and is_name(c.func.value, a) \
+            and len(c.args) == 1 and not c.keywords
+    listy = sorted({n.func.value.id for n in ast.walk(loop) if isinstance(n, ast.Call) and isinstance(n.func, ast.Attribute)  # type: ignore[attr-defined]
+                    and n.func.attr == "append" and isinstance(n.func.value, ast.Name)})
+    for a in listy:
+        if a in _stored(loop) or not _empty_list(env.get(a, ast.Constant(None))):
+            continue
+        uses = [n for n in ast.walk(loop) if is_name(n, a)]
+        if len(uses) != sum(1 for n in ast.walk(loop) if isinstance(n, ast.Call) and _appends(n, a)):
+            continue
+        vals: list[ast.AST] = []
+        lguards: dict[tuple[str, bool], Guard] = {}
+        ok_l = True
+        for p in passes:
+            if p.exit == "raise":
+                continue
+            hits = [c.node.args[0] for c in p.calls(lambda c, a=a: _appends(c, a))]
+            if len(hits) > 1:
+                ok_l = False
+                break
+            if hits:
+                vals.append(hits[0])
+                for _k, _ko, test, _ln, outcome in p.conds:
+                    lguards[(u(test), outcome)] = (test, outcome)
+        if not ok_l or not vals or len({u(v) for v in vals}) != 1:
+            continue
+        comp = ast.ListComp(elt=vals[0], generators=[ast.comprehension(
+            target=copy.deepcopy(loop.target), iter=copy.deepcopy(it), ifs=[], is_async=0)])
+        out[a] = (ast.fix_missing_locations(ast.copy_location(comp, loop)), list(lguards.values()))
     for a in sorted(_stored(loop) - _stored(loop.target)):
         if a not in env:
             continue
